@@ -1,6 +1,6 @@
 (* C09 — one opset per domain; mixed-version programs build and keep their meaning.  Property theorems only. *)
 From Coq Require Import List String NArith Arith Bool.
-From Spox Require Import Base IR Show Build Sem Plan Validate BuildFacts Adapt AdaptFacts.
+From Spox Require Import Base IR Show Build Sem Plan Validate BuildFacts Adapt AdaptFacts ReqFacts.
 Import ListNotations.
 
 (* The opset imports are max_opset_policy of the collected requirements (own nodes, subgraphs, function bodies, inlined models,
@@ -37,6 +37,15 @@ Proof. intros p r m H. apply build_checked_inv in H. destruct H as [_ Hv]. unfol
   match goal with H : floor_ok m = true |- _ => unfold floor_ok in H; destruct (lookup String.eqb ""%string (mimports m)) as [v|]; [|discriminate];
     exists v; split; [reflexivity|now apply Nat.leb_le in H] end. Qed.
 Print Assumptions C09_default_domain_floor.
+
+(* The same by construction (no validator): a result identity can only be named by the loop step that also records its requirement
+   ("", 14); the graph outputs need those names; the policy covers every recorded requirement.  Premise: the requested arguments of
+   every graph are outputs of real nodes (true of every reflected program; evaluated on every program of the check). *)
+Theorem C09_default_domain_floor_by_construction :
+  forall p r m, wf_gargs p -> build_public p r = inl m ->
+  exists v, lookup String.eqb ""%string (mimports m) = Some v /\ 14 <= v.
+Proof. exact build_public_floor. Qed.
+Print Assumptions C09_default_domain_floor_by_construction.
 
 (* Which nodes are handed to the version converter: never a node of another domain, never a node already at the imported version. *)
 Theorem C09_custom_domain_never_converted :
